@@ -54,8 +54,22 @@ fn strategy() -> BoxedStrategy<Case> {
         1 => Just(Op::BitfieldAll),
         2 => prop_oneof![Just(u32::MAX), any::<u32>()].prop_map(Op::InterestedMany),
     ];
-    (prop_oneof![2 => Just((false, false)), 2 => Just((true, false)), 1 => Just((false, true))], prop_oneof![Just(0u8), 0u8..8, 10u8..16, 12u8..25], vec(op, 0..120))
-        .prop_map(|((seeding, late_leech), initial_peers, ops)| Case { late_leech, seeding, initial_peers, ops })
+    (prop_oneof![2 => Just((false, false)), 2 => Just((true, false)), 1 => Just((false, true))], prop_oneof![6 => Just(0u8), 6 => 0u8..8, 6 => 10u8..16, 6 => 12u8..25, 1 => prop::sample::select(vec![44u8, 45, 46, 64, 100, 150, 200, 255])], vec(op, 0..120), vec(any::<u16>(), 8..32), any::<u64>())
+        .prop_map(|((seeding, late_leech), initial_peers, ops, few, rseed)| {
+            let mut ops = ops;
+            if initial_peers >= 44 {
+                // many peers, every one with a measured rate, one or two dozen interested (most of the best-rated ones
+                // are not): the slots have to be found far down the ranking
+                let mut pre = vec![Op::StatsAll(rseed)];
+                pre.extend(few.iter().map(|i| Op::Interested(*i)));
+                pre.push(Op::Rotate);
+                pre.push(Op::StatsAll(rseed.rotate_left(17)));
+                pre.push(Op::Rotate);
+                pre.extend(ops);
+                ops = pre;
+            }
+            Case { late_leech, seeding, initial_peers, ops }
+        })
         .boxed()
 }
 
@@ -117,7 +131,7 @@ async fn run_case(c: Case) -> Outcome {
 
     macro_rules! add_peer {
         () => {{
-            if peers.len() < 25 {
+            if peers.len() < 300 {
                 let addr = format!("10.1.{}.{}:6881", next_id / 200, next_id % 200 + 1);
                 next_id += 1;
                 s.verif_add_peer(&addr, None);
@@ -328,6 +342,7 @@ async fn run_case(c: Case) -> Outcome {
     }
     o.class_if(bitfields_before_first_rotation >= 12, ">=12-bitfields-before-first-rotation");
     o.class_if(c.seeding, "seeding");
+    o.class_if(c.initial_peers >= 44, ">=44-peers");
     o.class_if(c.late_leech, "late-leeching-nothing-missing");
     o.nontrivial = o.classes.contains(&">=12-bitfields-before-first-rotation") || o.classes.contains(&"rotation->10-interested-with-tie-across-cut");
     let _ = steps;
@@ -487,7 +502,7 @@ pub fn check_wire(c: &WCase) -> Outcome {
 pub fn def() -> PropDef {
     PropDef {
         id: "C14",
-        rule: "sub commands: a history of up to 120 manager commands {peer added, bitfield arrives, interested, not-interested, stats(rate_down, rate_up) with ties, stats for all, rotate, peer leaves} over 0-25 peers in leeching or seeding mode, each passed to the real handle_peer_cmd / timeout_change_conn_state (hooks). Oracle after every step: <= 11 peers unchoked, <= 10 non-optimistic unchoked; the fold of what each peer was told (with_am_unchoked replies, am_choked_map broadcasts) equals am_choked; after every rotation that is carried out: regular slot holders are interested, no choked interested peer has a strictly higher rate (upload rate when leeching, download rate when seeding, as the manager documents) than a holder nor is left choked while slots are free, peers without interest are choked (optimistic one excepted). Sub wire: up to 16 real connections on the swarm runtime (handshake, bitfield, interest changes, leaves, the real rotation after 21 virtual seconds): the fold of the Choke/Unchoke frames each peer actually received equals am_choked, and the slot bounds hold. Non-trivial (commands) = >= 12 bitfields before the first rotation, or a rotation with > 10 interested peers and a rate tie across the cut; distinct by hash of the case.",
+        rule: "(4 % of the command cases start with 44-255 peers, all with measured rates, 8-31 of them interested, and two rotations) sub commands: a history of up to 120 manager commands {peer added, bitfield arrives, interested, not-interested, stats(rate_down, rate_up) with ties, stats for all, rotate, peer leaves} over 0-25 peers in leeching or seeding mode, each passed to the real handle_peer_cmd / timeout_change_conn_state (hooks). Oracle after every step: <= 11 peers unchoked, <= 10 non-optimistic unchoked; the fold of what each peer was told (with_am_unchoked replies, am_choked_map broadcasts) equals am_choked; after every rotation that is carried out: regular slot holders are interested, no choked interested peer has a strictly higher rate (upload rate when leeching, download rate when seeding, as the manager documents) than a holder nor is left choked while slots are free, peers without interest are choked (optimistic one excepted). Sub wire: up to 16 real connections on the swarm runtime (handshake, bitfield, interest changes, leaves, the real rotation after 21 virtual seconds): the fold of the Choke/Unchoke frames each peer actually received equals am_choked, and the slot bounds hold. Non-trivial (commands) = >= 12 bitfields before the first rotation, or a rotation with > 10 interested peers and a rate tie across the cut; distinct by hash of the case.",
         assumptions: &[
             "every command used can be emitted by a connection task at any time (RecvBitfield, RecvInterested, RecvNotInterested, SyncStats, KillReq); PrepareKill replies are followed by the peer's removal as the task would do",
             "which measured rate ranks peers (uploaded while leeching, downloaded while seeding) is taken from the manager's own documented choice",
@@ -497,7 +512,7 @@ pub fn def() -> PropDef {
             cases: |t| t.pick(100_000, 1_500_000),
             run: |ctx| run_proptest(ctx, "commands", strategy(), check),
             replay: |v| replay_case::<Case>(v, check),
-            min_class: &[("rotation-carried-out", 0.3), ("optimistic-round", 0.1), (">=12-bitfields-before-first-rotation", 0.02), ("rotation->10-interested", 0.01), ("seeding", 0.2), ("late-leeching-nothing-missing", 0.1)],
+            min_class: &[("rotation-carried-out", 0.3), ("optimistic-round", 0.1), (">=12-bitfields-before-first-rotation", 0.02), ("rotation->10-interested", 0.01), ("seeding", 0.2), ("late-leeching-nothing-missing", 0.1), (">=44-peers", 0.015)],
         },
         Sub {
             name: "wire",
